@@ -134,6 +134,7 @@ def finish(rep, explanation, level="other", seed=0, facts_meta=None, write_evide
             "new_violations": [v["key"] for v in new],
             "facts": facts_meta or {},
             "notes": rep.notes,
+            "thorough": getattr(rep, "thorough", None),
             "exhaustive": False,
         },
         "assumptions": rep.assumptions,
